@@ -660,6 +660,9 @@ fn actor_stmt(d: Dim) -> BoxedStrategy<Stmt> {
         3 => (any::<bool>(), 0u8..2, 0u8..INIT_KINDS, big_value(), proptest::option::weighted(0.5, 0u8..6))
             .prop_map(|(create2, salt, init, value, store)| Stmt::Create { create2, salt, init, value, store }),
         1 => target.clone().prop_map(Stmt::SelfDestruct),
+        // ping-pong with the refunder (second contract of half of the policy worlds): value leaves the
+        // executing account and routine k of the refunder sends value to EOA k
+        2 => (prop_oneof![Just(1_000u64), Just(60_000u64), Just(120_000u64)], 0u8..5).prop_map(|(value, sel)| Stmt::Call { kind: CallKind::Call, target: AddrRef::Con(1), value, sel, arg: None, small_gas: false, store: None }),
         2 => ((0u8..6), (0u64..4)).prop_map(|(s, v)| Stmt::SStore(s, Expr::Const(v))),
         1 => Just(Stmt::Revert),
         1 => (0u8..6).prop_map(|s| Stmt::Return(Expr::SLoad(s))),
@@ -691,6 +694,16 @@ pub fn policy_scenario(g: &GenCfg) -> BoxedStrategy<Scenario> {
             let senders = n_eoa.min(4).max(1);
             // actor contract
             sc.world.contracts[0] = ContractDef { balance: Bal::Wei(50_000), storage: vec![], code: Code::Routines(routines) };
+            // half of the worlds have a "refunder" as second contract: routine k sends value back to
+            // EOA k, so a delegated account can be debited and credited again within one transaction
+            if sc.world.contracts.len() >= 2 && shape[0].0 % 2 == 0 {
+                let back = |k: u8, v: u64| vec![Stmt::Call { kind: CallKind::Call, target: AddrRef::Eoa(k), value: v, sel: 9, arg: None, small_gas: false, store: None }];
+                sc.world.contracts[1] = ContractDef {
+                    balance: Bal::Ether(1),
+                    storage: vec![],
+                    code: Code::Routines(vec![back(0, 60_000), back(1, 120_000), back(2, 60_000), back(3, 400_000), back(0, 1_000)]),
+                };
+            }
             for (idx, units, which) in &delegs {
                 let i = (*idx % senders) as usize;
                 let target = if *which == 0 || sc.world.contracts.len() < 2 { AddrRef::Con(0) } else { AddrRef::Con(1) };
